@@ -234,7 +234,8 @@ func (e *Engine) sendPoisonPill(ctx context.Context, graceful bool, pid *PID) co
 		graceful: graceful,
 	}
 	// deadletter - if we didn't find a process, we will broadcast a DeadletterEvent
-	if e.Registry.get(pid) == nil {
+	proc := e.Registry.get(pid)
+	if proc == nil {
 		e.BroadcastEvent(DeadLetterEvent{
 			Target:  pid,
 			Message: pill,
@@ -243,7 +244,12 @@ func (e *Engine) sendPoisonPill(ctx context.Context, graceful bool, pid *PID) co
 		cancel()
 		return ctx
 	}
-	e.SendLocal(pid, pill, nil)
+	// Only the first pill a process meets is acted on. Register with the
+	// process itself, so that this caller is told as well when it has stopped.
+	if w, ok := proc.(interface{ onStopped(context.CancelFunc) }); ok {
+		w.onStopped(cancel)
+	}
+	proc.Send(pid, pill, nil)
 	return ctx
 }
 
